@@ -32,6 +32,12 @@ theorem lag_guard (rows : List (List Int)) (lag : Int) (maxN : Option Nat) (slid
     (assignsToCounts rows lag maxN sliding).toOption.isNone := by
   simp [assignsToCounts, h, bind, Except.bind, throw, throwThe, MonadExceptOf.throw, Except.toOption]
 
+/-- no trajectory at all is rejected (`np.hstack([])` raises), as the code does -/
+theorem no_rows_rejected (lag : Int) (maxN : Option Nat) (sliding : Bool) :
+    (assignsToCounts [] lag maxN sliding).toOption.isNone := by
+  unfold assignsToCounts
+  by_cases h : lag < 1 <;> simp [h, bind, Except.bind, throw, throwThe, MonadExceptOf.throw, Except.toOption]
+
 /-- Entry (i, j) of the count matrix is the number of lagged pairs, over all rows with `-1` dropped,
 whose states are i and j; the matrix has the requested size. -/
 theorem counts_entry (rows : List (List Int)) (lag : Nat) (n : Nat) (sliding : Bool) (hlag : 1 ≤ lag)
@@ -41,9 +47,11 @@ theorem counts_entry (rows : List (List Int)) (lag : Nat) (n : Nat) (sliding : B
   simp only [assignsToCounts, hl, if_false, Int.toNat_natCast, allPairs_eq rows lag sliding hlag,
     bind, Except.bind, pure, Except.pure] at h
   split at h
-  · cases h
-  · cases h
-    exact ⟨rfl, fun _ _ => rfl⟩
+  · simp [throw, throwThe, MonadExceptOf.throw] at h
+  · split at h
+    · simp [throw, throwThe, MonadExceptOf.throw] at h
+    · cases h
+      exact ⟨rfl, fun _ _ => rfl⟩
 
 /-- with the state count inferred: the size is (largest observed state) + 1 and the entries are the same
 pair counts; an input with no assigned frame at all is rejected -/
@@ -54,14 +62,18 @@ theorem counts_entry_inferred (rows : List (List Int)) (lag : Nat) (sliding : Bo
   have hl : ¬ ((lag : Int) < 1) := by omega
   simp only [assignsToCounts, hl, if_false, Int.toNat_natCast, allPairs_eq rows lag sliding hlag,
     bind, Except.bind, pure, Except.pure] at h
-  cases hm : maxState rows with
-  | none => simp [hm, throw, throwThe, MonadExceptOf.throw] at h
-  | some m =>
-    simp only [hm] at h
-    split at h
-    · cases h
-    · cases h
-      exact ⟨m, rfl, rfl, fun _ _ => rfl⟩
+  split at h
+  · simp [throw, throwThe, MonadExceptOf.throw] at h
+  · cases hm : maxState rows with
+    | none => simp [hm, throw, throwThe, MonadExceptOf.throw] at h
+    | some m =>
+      simp only [hm] at h
+      split at h
+      · simp [throw, throwThe, MonadExceptOf.throw] at h
+      · split at h
+        · simp [throw, throwThe, MonadExceptOf.throw] at h
+        · cases h
+          exact ⟨m, rfl, rfl, fun _ _ => rfl⟩
 
 /-- the returned table is square: n rows of n entries -/
 theorem counts_square (c : CountMat) :
@@ -122,7 +134,9 @@ theorem counts_matrix_total (rows : List (List Int)) (lag : Nat) (n : Nat) (slid
   simp only [assignsToCounts, hl, if_false, Int.toNat_natCast, allPairs_eq rows lag sliding hlag,
     bind, Except.bind, pure, Except.pure] at h
   split at h
-  · cases h
+  · simp [throw, throwThe, MonadExceptOf.throw] at h
+  split at h
+  · simp [throw, throwThe, MonadExceptOf.throw] at h
   · rename_i hany
     simp only [he]
     apply sum_countPair
